@@ -297,6 +297,104 @@ def r12_5(ctx):
     ctx.floor("R12.5", 1)
 
 
+
+# ------------------------------------------------------------------------------------------------ R12.8 float-exact end point
+def _fx(e, env):
+    """Evaluate an expression to a term, simplifying ONLY with identities that are exact in IEEE arithmetic for finite
+    operands: a - a = 0, a / a = 1 (a != 0), 0 / a = 0, 0 * x = 0, 1 * x = x, x + 0 = x, x - 0 = x.  No distributivity,
+    no re-association: `y0 + (y1 - y0)` stays as it is (it equals y1 only when the subtraction is exact)."""
+    if isinstance(e, ast.Constant) and isinstance(e.value, (int, float)) and not isinstance(e.value, bool):
+        return ("num", Fraction(e.value))
+    if isinstance(e, ast.Name):
+        if e.id not in env:
+            raise AnalysisError(f"float-exact evaluation: unknown name `{e.id}`")
+        return env[e.id]
+    if isinstance(e, ast.UnaryOp) and isinstance(e.op, ast.USub):
+        v = _fx(e.operand, env)
+        return ("num", -v[1]) if v[0] == "num" else ("neg", v)
+    if isinstance(e, ast.BinOp) and isinstance(e.op, (ast.Add, ast.Sub, ast.Mult, ast.Div)):
+        a, b = _fx(e.left, env), _fx(e.right, env)
+        zero, one = ("num", Fraction(0)), ("num", Fraction(1))
+        if a[0] == "num" and b[0] == "num" and not (isinstance(e.op, ast.Div) and b[1] == 0):
+            x, y = a[1], b[1]
+            return ("num", x + y if isinstance(e.op, ast.Add) else x - y if isinstance(e.op, ast.Sub)
+                    else x * y if isinstance(e.op, ast.Mult) else x / y)
+        if isinstance(e.op, ast.Sub):
+            if a == b:
+                return zero
+            if b == zero:
+                return a
+        if isinstance(e.op, ast.Add):
+            if a == zero:
+                return b
+            if b == zero:
+                return a
+        if isinstance(e.op, ast.Mult):
+            if a == zero or b == zero:
+                return zero
+            if a == one:
+                return b
+            if b == one:
+                return a
+        if isinstance(e.op, ast.Div):
+            if a == b and a != zero:
+                return one
+            if a == zero:
+                return zero
+            if b == one:
+                return a
+        return ("op", type(e.op).__name__, a, b)
+    raise AnalysisError(f"float-exact evaluation: unsupported expression `{ast.unparse(e)}`")
+
+
+def _fx_show(t):
+    if t[0] == "sym":
+        return t[1]
+    if t[0] == "num":
+        return str(t[1])
+    if t[0] == "neg":
+        return f"-({_fx_show(t[1])})"
+    sym = {"Add": "+", "Sub": "-", "Mult": "*", "Div": "/"}[t[1]]
+    return f"({_fx_show(t[2])} {sym} {_fx_show(t[3])})"
+
+
+def fx_function(fi, args):
+    """Float-exact value returned by a straight-line function (assert statements are skipped)."""
+    env = dict(args)
+    for st in fi.node.body:
+        if isinstance(st, ast.Expr) and isinstance(st.value, ast.Constant):
+            continue
+        if isinstance(st, ast.Assert):
+            continue
+        if isinstance(st, ast.Assign) and len(st.targets) == 1 and isinstance(st.targets[0], ast.Name):
+            env[st.targets[0].id] = _fx(st.value, env)
+            continue
+        if isinstance(st, ast.Return) and st.value is not None:
+            return _fx(st.value, env)
+        raise AnalysisError(f"float-exact evaluation: unsupported statement `{ast.unparse(st)[:60]}`", where=astq.loc(fi, st))
+    raise AnalysisError("float-exact evaluation: no return reached", where=astq.loc(fi))
+
+
+def r12_8(ctx):
+    rep, model = ctx.rep, ctx.model
+    rep.rule("R12.8", "an output requested exactly at a step end is the grid state bit for bit: with t = t1 the interpolation "
+                      "formula reduces to y1 (and with t = t0 to y0) using only identities that are exact in floating point")
+    li = model.func(INTERP, "linear_interp")
+    rep.analysed(li)
+    if li.params != ["t0", "y0", "t1", "y1", "t"]:
+        raise AnalysisError(f"linear_interp has parameters {li.params}", where=astq.loc(li))
+    for at, want in (("t1", "y1"), ("t0", "y0")):
+        env = {n: ("sym", n) for n in ("t0", "y0", "t1", "y1")}
+        env["t"] = ("sym", at)
+        val = fx_function(li, env)
+        rep.check(val == ("sym", want), "R12.8", astq.loc(li), f"{li.key}::R12.8::t={at}",
+                  f"at t = {at} linear_interp evaluates, with floating-point-exact simplifications only, to "
+                  f"`{_fx_show(val)}` instead of `{want}`: the value reported at a grid time is not the solver's own state "
+                  f"bit for bit (e.g. y0 + (y1 - y0) != y1 when y changes sign or more than doubles), so a solve restarted "
+                  f"from the reported final state differs from the one-shot solve", f"reduces exactly to {want}")
+    ctx.floor("R12.8", 2)
+
+
 def run(ctx):
     ctx.guard(r12_1)
     ctx.guard(r12_2)
@@ -306,3 +404,4 @@ def run(ctx):
     ctx.guard(ik.rule_tiling, "R12.6")
     # "last step clipped to ts[-1]": a genuine remainder is a step of its own (exact-arithmetic model of the last steps)
     ctx.guard(ik.rule_last_steps, "R12.7", False)
+    ctx.guard(r12_8)
